@@ -42,7 +42,7 @@ SPECIFIC = {
          "Lists/streams of records follow from this contract plus alloy-rlp's assumed Vec<T> decoder."),
  'C14': ("Proved: each typed getter (ip4, ip6, tcp4, tcp6, udp4, udp6, id, get_raw_rlp, get_decodable, get) is a stated function of the raw stored value; setters/builder methods store rlp_uint(port)/rlp_str(octets) which read back (lemma_port_stored, lemma_ip*_stored); sockets/reachability are exactly the combination of the same family's ip and port accessors.",
          "client_info reports a value exactly when the raw value is an RLP list of two or three strings and then exactly those strings (lossy UTF-8), and what set_client_info / Builder::client_info store reads back as the strings given (lemma_client_reads_back); this rests on the ASSUMED contract T15 of alloy-rlp's Vec<Bytes> decoder (list of string items; a Kani cross-check of it did not run to completion) and T16 (lossy decoding of valid UTF-8 is the identity). u16 codec of alloy-rlp assumed."),
- 'C15': ("Proved: == is exactly equality of (seq, node id, signature) -- an equivalence relation by construction; clone is observationally identical; compare_content == (content_rlp(a) == content_rlp(b)); content_rlp is injective on valid content (lemma_content_rlp_injective); re-encode/decode image equal via C04.",
+ 'C15': ("Proved: == is exactly equality of (seq, node id, signature) -- an equivalence relation by construction; clone is observationally identical; compare_content == (content_rlp(a) == content_rlp(b)); content_rlp is injective on valid content (lemma_content_rlp_injective); re-encode/decode image equal via C04: every record a mutator or the builder hands out is valid (clauses [C15.*.image]: node id = hash of the stored key, values well typed, size within the limit), which is exactly when decode(encode(r)) == r.",
          "Hash for Enr feeds the hasher exactly (seq, node id, signature), the triple == compares, so equal records hash equally for every Hasher (ghost trace hasher_fed/hash_tok; that Vec<u8>, u64 and NodeId feed a function of their value is assumed). 'equal records carry identical pairs' needs signature unforgeability."),
  'C16': ("Proved (Verus, unbounded): parse Ok <==> len == 32 and Ok(id).raw == input; new/raw/From/AsRef/PartialEq identities. Kani function contract on the real NodeId::parse (slices <= 64 bytes, bounded) and a full-domain identity harness over all 32-byte values.",
          "Debug writes 0x + 64 lower-case hex digits and Display 0x + first two bytes + '..' + last two bytes (verified against the hex crate's assumed contract hex_chars). The helper serde_hex_prfx::deserialize that NodeId's derived Deserialize calls is PROVED by Verus for every string and every FromHex target: accepted exactly when, after ONE optional leading 0x, the target's from_hex accepts the text, with that value (hex::FromHex for [u8; 32] assumed: exactly 64 hex digits of either case). The whole deserialiser of NodeId (derive + helper, i.e. compiler-generated code included) is additionally checked by a BOUNDED Kani harness: for every ASCII string of at most 70 bytes it is Ok exactly for 64 hex digits with or without one 0x prefix and yields those bytes. NOT covered: the serde serialiser of NodeId (format! + hex::encode did not terminate in CBMC within 20 minutes), non-ASCII input strings."),
